@@ -298,6 +298,10 @@ func checkAssemblerOrder(c *core.Ctx, pkg, rp string) {
 		checkUnlinkSides(c, r6, pkg)
 	}
 
+	if pkg == "reassembly" {
+		r10 := c.Rule(rp+".10", "T", "a list built together with the byte count of its elements is never emptied without zeroing the count")
+		checkCoupledAccumulators(c, r10, pkg)
+	}
 	r9 := c.Rule(rp+".9", "T", "a delivered batch is not delivered again: on every path (across calls) from a delivery of a.ret to the next append into a.ret the batch is emptied")
 	checkBatchReset(c, r9, pkg)
 	r8 := c.Rule(rp+".8", "T", "a recycled page carries nothing over: every per-use field of a page that the package ever stores a value into is reset by pageCache.next or stored by the function that takes the page from it")
@@ -1270,4 +1274,118 @@ func checkBatchReset(c *core.Ctx, r *core.Rule, pkg string) {
 	if n < 2 {
 		r.Missing(pkg+"/deliveries", fmt.Sprintf("only %d delivery sites found", n))
 	}
+}
+
+// checkCoupledAccumulators (R9.10): where a list is built by appending in a
+// loop while an integer accumulates the elements' lengths, any later point
+// that replaces the list by an empty one must also take the integer back to
+// zero: the two are handed on together (saved pages and their byte count).
+func checkCoupledAccumulators(c *core.Ctx, r *core.Rule, pkg string) {
+	p := c.P
+	isEmptySlice := func(v ssa.Value) bool {
+		switch x := v.(type) {
+		case *ssa.Slice:
+			if x.High != nil {
+				if k, ok := core.ConstInt(x.High); ok && k == 0 {
+					return true
+				}
+			}
+			if pt, ok := x.X.Type().Underlying().(*types.Pointer); ok {
+				if at, ok := pt.Elem().Underlying().(*types.Array); ok && at.Len() == 0 {
+					return true
+				}
+			}
+		case *ssa.MakeSlice:
+			if k, ok := core.ConstInt(x.Len); ok && k == 0 {
+				return true
+			}
+		case *ssa.Const:
+			return x.IsNil()
+		}
+		return false
+	}
+	n := 0
+	for _, fn := range pkgFunctions(p, pkg) {
+		if strings.HasSuffix(p.Pos(fn.Pos()), "_test.go") {
+			continue
+		}
+		// accumulators: block with  r2 = append(rPhi, x)  and  s2 = sPhi + len(...)
+		type pair struct {
+			rPhi, sPhi *ssa.Phi
+		}
+		var pairs []pair
+		for _, b := range fn.Blocks {
+			var rPhi, sPhi *ssa.Phi
+			for _, ins := range b.Instrs {
+				if call, ok := ins.(*ssa.Call); ok {
+					if nm, cc := core.BuiltinCall(call); nm == "append" {
+						if ph, ok := cc.Args[0].(*ssa.Phi); ok {
+							rPhi = ph
+						}
+					}
+				}
+				if bo, ok := ins.(*ssa.BinOp); ok && bo.Op == token.ADD {
+					for _, pr := range [][2]ssa.Value{{bo.X, bo.Y}, {bo.Y, bo.X}} {
+						if ph, ok := pr[0].(*ssa.Phi); ok {
+							if _, isLen := core.IsLen(pr[1]); isLen {
+								sPhi = ph
+							}
+						}
+					}
+				}
+			}
+			if rPhi != nil && sPhi != nil && rPhi.Block() == sPhi.Block() {
+				pairs = append(pairs, pair{rPhi, sPhi})
+			}
+		}
+		for _, pr := range pairs {
+			// a later merge that may replace the list by an empty one
+			for _, j := range fn.Blocks {
+				for _, ins := range j.Instrs {
+					ph, ok := ins.(*ssa.Phi)
+					if !ok {
+						break
+					}
+					if !types.Identical(ph.Type(), pr.rPhi.Type()) || ph == pr.rPhi {
+						continue
+					}
+					fromLoop, emptyEdge := false, -1
+					for i, e := range ph.Edges {
+						if e == ssa.Value(pr.rPhi) {
+							fromLoop = true
+						}
+						if isEmptySlice(e) {
+							emptyEdge = i
+						}
+					}
+					if !fromLoop || emptyEdge < 0 {
+						continue
+					}
+					n++
+					key := fmt.Sprintf("%s/coupled-reset#%d", core.FnKey(fn), n)
+					// the integer at the same merge
+					ok2 := false
+					for _, i2 := range j.Instrs {
+						sp, isPhi := i2.(*ssa.Phi)
+						if !isPhi {
+							break
+						}
+						uses := false
+						for _, e := range sp.Edges {
+							if e == ssa.Value(pr.sPhi) {
+								uses = true
+							}
+						}
+						if uses {
+							if k, isK := core.ConstInt(sp.Edges[emptyEdge]); isK && k == 0 {
+								ok2 = true
+							}
+						}
+					}
+					r.Check(ok2, key, p.InstrPos(ph), "the byte count is zeroed on the edge that empties the list", "the list is replaced by an empty one on some path but the accumulated byte count keeps its value: the next delivery announces saved bytes it does not contain, so a stream honouring the count skips that many new bytes")
+				}
+			}
+		}
+	}
+	c.Counts[pkg+"_coupled_resets"] = n
 }
